@@ -1,6 +1,7 @@
 package world
 
 import (
+	badger "github.com/dgraph-io/badger/v2"
 	"bytes"
 	"context"
 	"encoding/binary"
@@ -254,7 +255,24 @@ func (r *Runner) writePriors(ctx context.Context, dir string, b *Base, priors []
 	if err != nil {
 		return err
 	}
-	defer store.Close(ctx)
+	var raw [][2][]byte // records that the store's own API refuses to write (zero-length values): written through badger directly
+	defer func() {
+		store.Close(ctx)
+		if len(raw) == 0 {
+			return
+		}
+		db, err := badger.Open(badger.DefaultOptions(dir).WithLogger(nil))
+		if err != nil {
+			panic(fmt.Sprintf("raw prior write: %v", err))
+		}
+		for _, kv := range raw {
+			kv := kv
+			if err := db.Update(func(txn *badger.Txn) error { return txn.Set(kv[0], kv[1]) }); err != nil {
+				panic(fmt.Sprintf("raw prior write: %v", err))
+			}
+		}
+		_ = db.Close()
+	}()
 	for _, p := range priors {
 		pk := b.PubKeys[fmt.Sprintf("k%d", p.K)]
 		if pk == nil {
@@ -296,6 +314,17 @@ func (r *Runner) writePriors(ctx context.Context, dir string, b *Base, priors []
 		switch {
 		case p.Fmt == "garbage":
 			rec = []byte{0x01, 0x02, 0x03}
+		case p.Fmt == "empty":
+			raw = append(raw, [2][]byte{key, {}})
+			continue
+		case p.Fmt == "versiononly":
+			rec = []byte{0x01}
+		case p.Fmt == "short":
+			rec = []byte{0x01, 9, 0, 0, 0, 0, 0, 0}
+		case p.Fmt == "long":
+			rec = append([]byte{0x01}, make([]byte, 24)...)
+		case p.Fmt == "otherversion":
+			rec = []byte{0xff, 0xff, 0xff, 0xff, 0xff, 0xff, 0xff, 0xff, 0xff}
 		case p.Kind == "att" && p.Fmt == "gob":
 			var buf bytes.Buffer
 			_ = gob.NewEncoder(&buf).Encode(struct{ SourceEpoch, TargetEpoch int64 }{sVal, tVal})
